@@ -50,6 +50,10 @@ type snapshot struct {
 	Routes       []*route.RouteConfiguration
 	EDSRequested []string
 	Endpoints    []*endpoint.ClusterLoadAssignment
+	// EndpointsWarm is the answer to the same EDS request repeated (served from the XDS cache);
+	// EDSResourceNames are the names on the resource wrappers of the two answers
+	EndpointsWarm    []*endpoint.ClusterLoadAssignment
+	EDSResourceNames [2][]string
 	Crashes      []finding // panics and undecodable resources seen while generating
 	Stage        map[string]bool
 }
@@ -145,11 +149,14 @@ func check(s *snapshot) []finding {
 		names = append(names, r.GetName())
 	}
 	dupNames("RDS", names)
-	names = nil
-	for _, e := range s.Endpoints {
-		names = append(names, e.GetClusterName())
+	for round, eps := range [][]*endpoint.ClusterLoadAssignment{s.Endpoints, s.EndpointsWarm} {
+		names = nil
+		for _, e := range eps {
+			names = append(names, e.GetClusterName())
+		}
+		dupNames("EDS", names)
+		dupNames("EDS", s.EDSResourceNames[round])
 	}
-	dupNames("EDS", names)
 
 	// 2. closure: what is referenced is produced when requested
 	if s.Stage["RDS"] {
@@ -164,13 +171,16 @@ func check(s *snapshot) []finding {
 		}
 	}
 	if s.Stage["EDS"] {
-		have := map[string]bool{}
-		for _, e := range s.Endpoints {
-			have[e.GetClusterName()] = true
-		}
-		for _, n := range s.EDSRequested {
-			if !have[n] {
-				add("eds-not-produced", "EDS", nameClass("EDS", n), n, fmt.Sprintf("EDS cluster references load assignment %q; the EDS answer to a request for it does not contain it", n))
+		for round, eps := range [][]*endpoint.ClusterLoadAssignment{s.Endpoints, s.EndpointsWarm} {
+			have := map[string]bool{}
+			for _, e := range eps {
+				have[e.GetClusterName()] = true
+			}
+			for _, n := range s.EDSRequested {
+				if !have[n] {
+					add("eds-not-produced", "EDS", nameClass("EDS", n), n,
+						fmt.Sprintf("EDS cluster references load assignment %q; answer #%d to a request for all referenced names does not contain it", n, round+1))
+				}
 			}
 		}
 	}
@@ -270,6 +280,9 @@ func check(s *snapshot) []finding {
 		pgv("RDS", r.GetName(), r, add)
 	}
 	for _, e := range s.Endpoints {
+		pgv("EDS", e.GetClusterName(), e, add)
+	}
+	for _, e := range s.EndpointsWarm {
 		pgv("EDS", e.GetClusterName(), e, add)
 	}
 	return out
